@@ -15,6 +15,9 @@ import (
 	"github.com/apache/skywalking-banyandb/pkg/verif/simcore"
 )
 
+// dayBoundaries: the instants where day segments meet (the bubble's clock starts at 2000-01-01T00:00:00Z).
+var dayBoundaries = []int64{946684800000, 946684800000 - 86400_000, 946684800000 + 86400_000}
+
 func TestSim(t *testing.T) {
 	simnode.InitLogging()
 	simcore.Main(t, "C01", []simcore.Scenario{
@@ -70,7 +73,7 @@ func runMeasure(e *simcore.Env, tp *simcore.Tape) {
 				if big {
 					maxRows = 9000
 				}
-				rows := m.GenBatch(tp, wl.BatchOpts{BaseMs: time.Now().UnixMilli(), SpanMs: spanMs, MaxRows: maxRows, MaxSeries: 6, NullOK: true}, batches)
+				rows := m.GenBatch(tp, wl.BatchOpts{BaseMs: time.Now().UnixMilli(), SpanMs: spanMs, MaxRows: maxRows, MaxSeries: 6, NullOK: true, BoundaryTimes: dayBoundaries}, batches)
 				reqs := m.ToRequests(rows, msgID)
 				msgID += uint64(len(reqs))
 				resps, werr := n.WriteMeasure(reqs)
@@ -203,7 +206,7 @@ func runStream(e *simcore.Env, tp *simcore.Tape) {
 				if big {
 					maxRows = 9000
 				}
-				rows := m.GenBatch(tp, wl.BatchOpts{BaseMs: time.Now().UnixMilli(), SpanMs: spanMs, MaxRows: maxRows, MaxSeries: 6, NullOK: true}, batches)
+				rows := m.GenBatch(tp, wl.BatchOpts{BaseMs: time.Now().UnixMilli(), SpanMs: spanMs, MaxRows: maxRows, MaxSeries: 6, NullOK: true, BoundaryTimes: dayBoundaries}, batches)
 				reqs := m.ToRequests(rows, msgID)
 				msgID += uint64(len(reqs))
 				resps, werr := n.WriteStream(reqs)
